@@ -384,6 +384,23 @@ class _Expr(ast.NodeTransformer):
 
     def visit_BinOp(self, node):
         self.generic_visit(node)
+        # c OP (A if t else B)  ==  (c OP A) if t else (c OP B)   (a literal operand has no effect and no type of its own
+        # to dispatch on before the test is evaluated); likewise with the literal on the right
+        lit = lambda e: isinstance(e, ast.Constant) and type(e.value) in (int, float)
+        if lit(node.left) and isinstance(node.right, ast.IfExp):
+            r = node.right
+            return self.visit(ast.IfExp(test=r.test, body=ast.BinOp(left=node.left, op=node.op, right=r.body),
+                                        orelse=ast.BinOp(left=_copy_expr(node.left), op=node.op, right=r.orelse)))
+        if lit(node.right) and isinstance(node.left, ast.IfExp):
+            l = node.left
+            return self.visit(ast.IfExp(test=l.test, body=ast.BinOp(left=l.body, op=node.op, right=node.right),
+                                        orelse=ast.BinOp(left=l.orelse, op=node.op, right=_copy_expr(node.right))))
+        # c + (E - c) / (E - c) + c  ==  E   for an int-typed E (len(..), int(..), counters)
+        if isinstance(node.op, ast.Add):
+            for a, b in ((node.left, node.right), (node.right, node.left)):
+                if lit(a) and type(a.value) is int and isinstance(b, ast.BinOp) and isinstance(b.op, ast.Sub) and lit(b.right) \
+                        and type(b.right.value) is int and b.right.value == a.value and _int_typed(b.left, self.root):
+                    return b.left
         return self._arith(node)
 
     def _arith(self, node):
@@ -756,13 +773,19 @@ def _inline_accessors(fn):
                 elif isinstance(t, ast.Name) and isinstance(v, ast.Subscript) and isinstance(v.value, ast.Name) and v.value.id == va \
                         and isinstance(v.slice, ast.Constant) and isinstance(v.slice.value, int):
                     name, idx = t.id, v.slice.value
-            if name is not None and stored.get(name, 0) == 1 and name not in _captured_names(fn):
+                elif isinstance(t, ast.Name) and isinstance(v, ast.Subscript) and isinstance(v.value, ast.Name) and v.value.id == va \
+                        and isinstance(v.slice, ast.Slice) and all(
+                            b_ is None or (isinstance(b_, ast.Constant) and isinstance(b_.value, int))
+                            for b_ in (v.slice.lower, v.slice.upper, v.slice.step)):
+                    name, idx = t.id, v.slice            # rest = args[1:]: a slice of an immutable tuple
+            if name is not None and stored.get(name, 0) == 1 and (name not in _captured_names(fn) or isinstance(idx, ast.Slice)):
                 after = sum(_count_loads(s_, name) for s_ in blk[i + 1:])
                 total = _count_loads(fn, name)
                 # the one-element unpacking also checks the length: only where the block is guarded by it the
                 # substitution is exact - the rewrite is used for views read by rules, not for equivalence proofs
                 if after == total:
-                    repl = ast.Subscript(value=ast.Name(id=va, ctx=ast.Load()), slice=ast.Constant(value=idx), ctx=ast.Load())
+                    repl = ast.Subscript(value=ast.Name(id=va, ctx=ast.Load()),
+                                         slice=idx if isinstance(idx, ast.Slice) else ast.Constant(value=idx), ctx=ast.Load())
                     for j in range(i + 1, len(blk)):
                         blk[j] = _Subst({name: repl}).visit(blk[j])
                     del blk[i]
@@ -770,6 +793,202 @@ def _inline_accessors(fn):
                     continue
             i += 1
     return changed
+
+
+_PURE_BUILTINS = {"isinstance", "len", "callable", "hasattr", "type", "issubclass", "id", "abs", "bool", "int", "float", "str", "repr"}
+
+
+def _clean_expr(e):
+    """evaluating it cannot store into an attribute or an item: only whitelisted builtins are called"""
+    for n in ast.walk(e):
+        if isinstance(n, ast.Call) and not (isinstance(n.func, ast.Name) and n.func.id in _PURE_BUILTINS):
+            return False
+        if isinstance(n, (ast.Yield, ast.YieldFrom, ast.Await, ast.NamedExpr, ast.Lambda, ast.GeneratorExp, ast.ListComp,
+                          ast.SetComp, ast.DictComp)):
+            return False
+    return True
+
+
+def _clean_stmt(st):
+    if isinstance(st, ast.Assign):
+        return all(isinstance(t, ast.Name) for t in st.targets) and _clean_expr(st.value)
+    if isinstance(st, ast.Expr):
+        return isinstance(st.value, ast.Constant)
+    if isinstance(st, ast.Pass):
+        return True
+    if isinstance(st, ast.If):
+        return _clean_expr(st.test) and all(_clean_stmt(x) for x in st.body + st.orelse)
+    return False
+
+
+def _always_leaves(block):
+    if not block:
+        return False
+    last = block[-1]
+    if isinstance(last, (ast.Return, ast.Raise)):
+        return True
+    if isinstance(last, ast.If) and last.orelse:
+        return _always_leaves(last.body) and _always_leaves(last.orelse)
+    return False
+
+
+def _skippable(st):
+    """a statement after which, on the path that goes on, no attribute / item has been written"""
+    if _clean_stmt(st):
+        return True
+    if isinstance(st, ast.If) and _clean_expr(st.test):
+        ok_body = _always_leaves(st.body) or all(_clean_stmt(x) for x in st.body)
+        ok_else = (not st.orelse) or _always_leaves(st.orelse) or all(_clean_stmt(x) for x in st.orelse)
+        return ok_body and ok_else
+    return False
+
+
+def _inline_read_aliases(fn):
+    """``v = self.attr[0]`` (a plain read chain, assigned once at the top level of the body): every use of ``v`` that is
+    reached from the assignment without any statement that could write an attribute or an item is replaced by the read
+    itself; when all uses are, the assignment goes.  Views only (rules name ``self.denpoly[0]``, not a local)."""
+    def read_chain(e):
+        if isinstance(e, ast.Call) and isinstance(e.func, ast.Name) and e.func.id == "len" and len(e.args) == 1 and not e.keywords:
+            e = e.args[0]            # the size of a container that nothing on the way writes to
+            if isinstance(e, ast.Name):
+                return False
+        while isinstance(e, (ast.Attribute, ast.Subscript)):
+            if isinstance(e, ast.Subscript) and not isinstance(e.slice, ast.Constant):
+                return False
+            e = e.value
+        return isinstance(e, ast.Name)
+    stored = {}
+    for n in ast.walk(fn):
+        if isinstance(n, ast.Name) and isinstance(n.ctx, (ast.Store, ast.Del)):
+            stored[n.id] = stored.get(n.id, 0) + 1
+    params = _scope_params(fn)
+    body = fn.body
+    changed = False
+    i = 0
+    while i < len(body):
+        st = body[i]
+        if isinstance(st, ast.Assign) and len(st.targets) == 1 and isinstance(st.targets[0], ast.Name) \
+                and isinstance(st.value, (ast.Attribute, ast.Subscript, ast.Call)) and read_chain(st.value):
+            v = st.targets[0].id
+            root = st.value.args[0] if isinstance(st.value, ast.Call) else st.value
+            while isinstance(root, (ast.Attribute, ast.Subscript)):
+                root = root.value
+            if stored.get(v, 0) == 1 and v not in params and v not in _captured_names(fn) \
+                    and (root.id in params or root.id == "self") and stored.get(root.id, 0) == 0 \
+                    and not any(_count_loads(s_, v) for s_ in body[:i]):
+                total = _count_loads(fn, v)
+                replaced = 0
+
+                def descend(block, start):
+                    """replace uses in block[start:] as long as the path stays clean; returns False when it stops"""
+                    nonlocal replaced
+                    for k in range(start, len(block)):
+                        s_ = block[k]
+                        if _count_loads(s_, v):
+                            if isinstance(s_, ast.If):
+                                if not _clean_expr(s_.test):
+                                    return False
+                                n0 = _count_loads(s_.test, v)
+                                s_.test = _Subst({v: st.value}).visit(s_.test)
+                                replaced += n0
+                                okb = descend(s_.body, 0)
+                                oke = descend(s_.orelse, 0) if s_.orelse else True
+                                if not ((okb or _always_leaves(s_.body)) and (oke or _always_leaves(s_.orelse))):
+                                    return False
+                                if not _skippable(s_):
+                                    return False
+                                continue
+                            if isinstance(s_, (ast.Assign, ast.Return, ast.Expr, ast.Raise)) and not isinstance(s_, ast.If):
+                                # the use is evaluated before whatever the statement itself writes, if nothing effectful
+                                # comes first in it
+                                if all(_loaded_first_occurrence(s_, v)):
+                                    n0 = _count_loads(s_, v)
+                                    block[k] = _Subst({v: st.value}).visit(s_)
+                                    replaced += n0
+                                    if not _skippable(block[k]):
+                                        return False
+                                    continue
+                            return False
+                        if not _skippable(s_):
+                            return False
+                    return True
+                descend(body, i + 1)
+                if replaced == total and total > 0:
+                    del body[i]
+                    changed = True
+                    continue
+                if replaced:
+                    changed = True
+        i += 1
+    return changed
+
+
+def _loaded_first_occurrence(stmt, v):
+    """[True] when the statement reads ``v`` before anything effectful and reads it once; else [False]"""
+    if _count_loads(stmt, v) != 1:
+        return [False]
+    return [_loaded_first(stmt, v)]
+
+
+def _append_loops(fn):
+    """[(block, index)] of ``L = []`` directly followed by ``for T in S: [if P:] L.append(E)`` with L used for nothing else
+    inside the loop"""
+    out = []
+    for blk in _blocks_of(fn):
+        for i in range(len(blk) - 1):
+            st, nxt = blk[i], blk[i + 1]
+            if isinstance(st, ast.Assign) and len(st.targets) == 1 and isinstance(st.targets[0], ast.Name) \
+                    and isinstance(st.value, ast.List) and not st.value.elts and _append_loop_on(nxt, st.targets[0].id):
+                L = st.targets[0].id
+                body = nxt.body[0]
+                test = None
+                if isinstance(body, ast.If):
+                    test, body = body.test, body.body[0]
+                E = body.value.args[0] if len(body.value.args) == 1 else None
+                if E is None or _count_loads(E, L) or _count_loads(nxt.iter, L) or (test is not None and _count_loads(test, L)):
+                    continue
+                tnames = {n.id for n in ast.walk(nxt.target) if isinstance(n, ast.Name)}
+
+                def read_first(name):
+                    """is the loop variable read after the loop before anything re-binds it (in source order)?"""
+                    occ = []
+                    for s_ in blk[i + 2:]:
+                        for n in ast.walk(s_):
+                            if isinstance(n, ast.Name) and n.id == name:
+                                aug = isinstance(getattr(n, "_aug", None), bool)
+                                occ.append((getattr(n, "lineno", 0), getattr(n, "col_offset", 0), isinstance(n.ctx, ast.Load)))
+                            elif isinstance(n, ast.AugAssign) and isinstance(n.target, ast.Name) and n.target.id == name:
+                                occ.append((getattr(n, "lineno", 0), -1, True))
+                    if not occ:
+                        return False
+                    # an assignment evaluates its right-hand side first: x = f(x) reads x
+                    occ.sort()
+                    first = occ[0]
+                    if first[2]:
+                        return True
+                    same_line_reads = [o for o in occ if o[0] == first[0] and o[2]]
+                    return bool(same_line_reads)
+                if any(read_first(nm) for nm in tnames):
+                    continue            # the loop variable is read afterwards: a comprehension would hide it
+                if any(isinstance(n, (ast.Yield, ast.YieldFrom, ast.Await)) for n in ast.walk(nxt)):
+                    continue
+                out.append((blk, i, L, E, test, nxt))
+    return out
+
+
+def _loops_to_comprehensions(fn):
+    did = False
+    for _ in range(8):
+        found = _append_loops(fn)
+        if not found:
+            break
+        blk, i, L, E, test, loop = found[0]
+        comp = ast.ListComp(elt=E, generators=[ast.comprehension(target=loop.target, iter=loop.iter,
+                                                                 ifs=[test] if test is not None else [], is_async=0)])
+        blk[i] = ast.Assign(targets=[ast.Name(id=L, ctx=ast.Store())], value=comp, lineno=blk[i].lineno, col_offset=0)
+        del blk[i + 1]
+        did = True
+    return did
 
 
 def simplify_views(tree, ref_tree):
@@ -787,7 +1006,10 @@ def simplify_views(tree, ref_tree):
         for _ in range(4):
             c1 = _propagate_pure(node, only_flags=True)
             c2 = _inline_accessors(node)
-            if not (c1 or c2):
+            c3 = _inline_read_aliases(node)
+            # a list built by an append loop where the confirmed function builds its lists by comprehensions only
+            c4 = (not _append_loops(r)) and any(isinstance(n, ast.ListComp) for n in ast.walk(r)) and _loops_to_comprehensions(node)
+            if not (c1 or c2 or c3 or c4):
                 break
             did = True
         for sub in [n for n in ast.walk(node) if isinstance(n, FuncTypes) and n is not node]:
@@ -2161,6 +2383,73 @@ def _zero_arg_gen_defs(fn):
     return fn
 
 
+_EAGER_BUILTINS = {"sum", "list", "tuple", "max", "min", "any", "all", "sorted", "set", "frozenset", "dict", "OrderedDict"}
+
+
+def _param_gen_defs(fn):
+    """def g(p, q): for T in S: yield E      ...   sum(g(a, b))     ->     sum((E' for T in S'))   (p, q := a, b)
+    when every call of g is the only argument of a builtin that consumes it on the spot and the arguments are plain
+    names / literals: the loop header is evaluated inside the consumer, before anything else can happen"""
+    for scope in [n for n in ast.walk(fn) if isinstance(n, FuncTypes)]:
+        for blk in _all_blocks(scope):
+            for st in list(blk):
+                if not (isinstance(st, FuncTypes) and not st.decorator_list and st.args.args and not st.args.vararg
+                        and not st.args.kwarg and not st.args.defaults and not st.args.kwonlyargs):
+                    continue
+                body = docstring_free(st.body)
+                if not (len(body) == 1 and isinstance(body[0], ast.For) and not body[0].orelse and len(body[0].body) == 1
+                        and isinstance(body[0].body[0], ast.Expr) and isinstance(body[0].body[0].value, ast.Yield)
+                        and body[0].body[0].value.value is not None):
+                    continue
+                loop = body[0]
+                params = [a.arg for a in st.args.args]
+                if isinstance(loop.iter, ast.Name) and loop.iter.id in params:
+                    continue        # the iterable itself is a parameter: the other rewrite
+                if any(isinstance(n, ast.Name) and isinstance(n.ctx, (ast.Store, ast.Del)) and n.id in params for n in ast.walk(loop)):
+                    continue
+                calls = [n for n in ast.walk(scope) if isinstance(n, ast.Call) and isinstance(n.func, ast.Name) and n.func.id == st.name]
+                loads = [n for n in ast.walk(scope) if isinstance(n, ast.Name) and n.id == st.name and isinstance(n.ctx, ast.Load)]
+                same = [n for n in ast.walk(scope) if isinstance(n, FuncTypes) and n.name == st.name]
+                rebound = [n for n in ast.walk(scope) if isinstance(n, ast.Name) and n.id == st.name and isinstance(n.ctx, (ast.Store, ast.Del))]
+                if not calls or len(calls) != len(loads) or len(same) != 1 or rebound:
+                    continue
+                after = blk[blk.index(st) + 1:]
+                if not all(any(c is x for s_ in after for x in ast.walk(s_)) for c in calls):
+                    continue
+                parent = {}
+                for n in ast.walk(scope):
+                    for ch in ast.iter_child_nodes(n):
+                        parent[id(ch)] = n
+                ok = True
+                for c in calls:
+                    par = parent.get(id(c))
+                    if not (len(c.args) == len(params) and not c.keywords
+                            and all(isinstance(a_, (ast.Name, ast.Constant)) for a_ in c.args)
+                            and isinstance(par, ast.Call) and isinstance(par.func, ast.Name) and par.func.id in _EAGER_BUILTINS
+                            and len(par.args) == 1 and par.args[0] is c and not par.keywords):
+                        ok = False
+                if not ok:
+                    continue
+                ids = {id(c) for c in calls}
+                elt_src, tgt_src, it_src = ast.unparse(loop.body[0].value.value), ast.unparse(loop.target), ast.unparse(loop.iter)
+
+                class _Rep(ast.NodeTransformer):
+                    def visit_Call(self, node):
+                        self.generic_visit(node)
+                        if id(node) in ids:
+                            m = dict(zip(params, node.args))
+                            sub = lambda src: _Subst(m).visit(ast.parse(src, mode="eval").body)
+                            return ast.GeneratorExp(elt=sub(elt_src), generators=[ast.comprehension(
+                                target=ast.parse(tgt_src + " = 0").body[0].targets[0], iter=sub(it_src), ifs=[], is_async=0)])
+                        return node
+                blk.remove(st)
+                for i_, s_ in enumerate(scope.body):
+                    scope.body[i_] = _Rep().visit(s_)
+                ast.fix_missing_locations(scope)
+                return _param_gen_defs(fn) or True
+    return False
+
+
 def _gen_defs_to_genexps(fn):
     """def g(p): for T in p: yield E   ...   g(iter(X))      ->      (E for T in X)
     (both call iter(X) on the spot and evaluate E lazily in the enclosing scope)"""
@@ -2326,6 +2615,7 @@ def canonical_ast(fn, helpers, methods=None, hier=None, segment=False):
             return node
     f = _Beta().visit(f)
     _gen_defs_to_genexps(f)
+    _param_gen_defs(f)
     _zero_arg_gen_defs(f)
     ast.fix_missing_locations(f)
     f.body = docstring_free(f.body)
